@@ -16,13 +16,17 @@ pub struct SimConfig {
     pub yield_gap: u64,
     /// F-subset: deliver only these positions of the source to the pipeline (None = all)
     pub deliver: Option<Vec<usize>>,
+    /// number of items the first top-level iterator must have for `deliver` to mean "these replica
+    /// indices" (0 = unchecked).  A pipeline that iterates over something else (chunks of indices,
+    /// say) gets everything, and the execution is marked: its result says nothing about subsets
+    pub deliver_expect: usize,
     /// maximal leaf size when splitting (0 = random)
     pub max_leaf: usize,
 }
 
 impl Default for SimConfig {
     fn default() -> Self {
-        SimConfig { workers: 1, reference: true, yield_gap: 0, deliver: None, max_leaf: 0 }
+        SimConfig { workers: 1, reference: true, yield_gap: 0, deliver: None, deliver_expect: 0, max_leaf: 0 }
     }
 }
 
@@ -39,6 +43,8 @@ pub struct SimStats {
     pub handoffs: u64,
     pub items_delivered: u64,
     pub items_dropped: u64,
+    /// executions in which F-subset could not be applied (see SimConfig::deliver_expect)
+    pub subset_not_applicable: u64,
     pub workers_that_ran_items: u64,
     /// (value id, first item, second item, second access was a write)
     pub races: Vec<(u64, i64, i64, bool)>,
